@@ -115,6 +115,9 @@ type InterpModel struct {
 	// MainMode: used for package main — module calls are events (nothing is inlined) and loads of
 	// the two error flags fork over both values
 	MainMode bool
+	// InlinePkg: in MainMode, callees of this package are inlined too (except InlineStop names)
+	InlinePkg  string
+	InlineStop map[string]bool
 }
 
 func NewInterpModel(p *Prog, scenario string) *InterpModel {
@@ -471,6 +474,9 @@ func (m *InterpModel) Call(mc *Machine, st *State, call ssa.CallInstruction, cal
 	if m.MainMode && fnPkgName(callee) == "main" && !mainAnchors[callee.Name()] && len(st.Frames) < mc.MaxDepth-1 && !mc.onStack(st, callee) {
 		return nil, false // helper of package main: inline
 	}
+	if m.MainMode && m.InlinePkg != "" && fnPkgName(callee) == m.InlinePkg && !m.InlineStop[callee.Name()] && len(st.Frames) < mc.MaxDepth-1 && !mc.onStack(st, callee) {
+		return nil, false // small helper next to the explored function (e.g. a lexeme() accessor): inline
+	}
 	if m.MainMode {
 		e := m.ev(in, "call", append([]string{m.p.FuncKey(callee)}, argStrings(args)...), "")
 		var res AV = Sym("r" + valName)
@@ -772,7 +778,7 @@ func (m *InterpModel) BackEdge(mc *Machine, st *State, from, to *ssa.BasicBlock)
 		return
 	}
 	kind := "loop"
-	if strings.HasPrefix(to.Comment, "rangeindex.loop") || strings.HasPrefix(to.Comment, "rangeiter.loop") {
+	if strings.HasPrefix(to.Comment, "rangeindex.loop") || strings.HasPrefix(to.Comment, "rangeiter.loop") || boundedCountingLoop(to) {
 		kind = "range"
 	}
 	e := &Event{Op: "backedge", Args: []string{kind}, Pos: m.p.InstrPos(to.Instrs[0]), Site: to.Parent().Name() + ":b" + fmt.Sprint(to.Index), KV: map[string]string{"kind": kind}}
